@@ -232,7 +232,11 @@ func (c Collection) characterizeAndFlatten(nonStaticTypes map[typeCode]bool) ([]
 		if err != nil {
 			return nil, nil, err
 		}
-		flat := replacement.flatten()
+		var flat []*provider
+		if rv := reflect.ValueOf(replacement); rv.IsValid() && !(rv.Kind() == reflect.Ptr && rv.IsNil()) {
+			// (a nil replacement is no providers, like a nil given to Sequence)
+			flat = replacement.flatten()
+		}
 		if len(flat) == 1 {
 			c.contents[i] = flat[0]
 		} else {
